@@ -15,7 +15,12 @@ import core
 from core import hx
 from runner import Case
 
-THEOREMS = []
+THEOREMS = [
+    "C08.pairs_fold", "C08.pairs_fold_ok", "C08.pairs_fold_needs_valid", "C08.prefix_loop_not_fold",
+    "C08.shift_ok", "C08.shift_paths", "C08.shift_keeps_ids", "C08.shift_frame",
+    "C08.copy_ok", "C08.copy_paths", "C08.copy_fresh_ids", "C08.copy_origin_untouched",
+    "C08.source_untouched", "C08.t2t_copy", "C08.delete_paths",
+]
 PROOF_IMPORTS = ["BigtreeProofs.Properties.C08"]
 FLAGS = ["skippable", "overriding", "merge_children", "merge_leaves", "delete_children", "with_full_path"]
 SK, OV, MC, ML, DC, FP = range(6)
